@@ -1,6 +1,8 @@
 import Orx.KSRun
 import Orx.IW.Outs
-import Orx.GenThms
+import Orx.GenThms.Slice
+import Orx.GenThms.Vec
+import Orx.GenThms.Arr
 /-! # C03 Chunk contract: non-empty, bounded, consecutive, exact length -/
 namespace Orx.Props.C03
 open Orx Orx.KS
